@@ -129,3 +129,30 @@ def native_replayer(ob):
     if ob.witness and ob.engine in ('E5-bounded', 'E3'):
         return dict(failure_exhibited=True, how='the real code was run on this input and compared with an independent oracle', input=ob.witness)
     return None
+
+
+def listdict_dependency(rep, tier, sorts=('U', 'Pair')):
+    """The simulators' contracts ASSUME the contracts of _ListDict_ (weighted sampling container); those are verified under C16.  A
+    property that depends on them re-verifies the container's units in its own check, so a change inside the container that breaks
+    the dependent property is reported by that property's check too (modular verification: a callee change is only noticed by the
+    callee's own obligations)."""
+    from ..contracts import listdict
+    from ..pyvc import verify as V2
+
+    def mk(sort):
+        def reg():
+            r = V2.Registry()
+            for c in listdict.contracts(sort):
+                r.add(c)
+            return r
+        return reg
+    for sort in sorts:
+        res = run_jobs(jobs_for(mk(sort), tier=tier))
+        tag = '<dependency:_ListDict_%s>' % ('' if sort == 'U' else ' of pairs')
+        for u in res:
+            u['unit'] = u['unit'] + tag
+            u['case'] = u['case'] + tag
+            for o in u['obligations']:
+                o['id'] = o['id'].replace(']:', tag + ']:', 1)
+        rep.add_unit_results(res)
+    rep.assumptions.append('callee contracts of _ListDict_ are re-verified in this check (units tagged <dependency:_ListDict_...>), as under C16')
